@@ -9,7 +9,7 @@ func init() {
 			"and every transfer out of a pool, spread-reward or incentive account is of exactly the amount the bookkeeping just computed, to the position owner, from the matching account; the set of functions that send coins from pool-owned accounts is closed.",
 		NotCovered:  []string{"that accumulated dust over a history covers every claim (magnitude argument over histories)", "lock-bound positions", "negative interval accumulator values"},
 		Assumptions: []string{"rounding classes of osmomath as proved by C12", "bank keeper SendCoins moves exactly the given coins or fails"},
-		MinObl:      72,
+		MinObl:      83,
 		Run:         runC01,
 	})
 }
@@ -48,13 +48,8 @@ func runC01(c *rules.Ctx) {
 	c.FailsWhen(SC, "sdkmath.Int.IsNegative(amount1)", "negative amounts are never sent", rules.GuardOpt{Before: "cltypes.BankKeeper.SendCoins"})
 	c.CheckedCall(SC, "cltypes.BankKeeper.SendCoins", []string{"k.bankKeeper", "ctx", "sender", "receiver", "sdk.NewCoins(sdk.NewCoin(denom1,amount1), sdk.NewCoin(denom0,amount0))"}, "exactly (amount0, amount1) in the pool's two denoms is sent", "")
 	// ---- swaps: fee split and the three transfers
-	const US = K + "updatePoolForSwap"
-	c.Let("FEE", "sdk.NewCoin(swapDetails.TokenIn.Denom, sdkmath.LegacyDec.TruncateInt(sdkmath.LegacyDec.Ceil(totalSpreadFactors)))")
-	c.StoreField(US, "Amount", "sdkmath.Int.Sub(swapDetails.TokenIn.Amount, {FEE}.Amount)", "the amount sent to the pool is token-in less the (ceiled) spread fee")
-	c.CheckedCallOpt(US, "cltypes.BankKeeper.SendCoins[3=cltypes.ConcentratedPoolExtension.GetSpreadRewardsAddress(_)]", []string{"k.bankKeeper", "ctx", "swapDetails.Sender", "_", "list({FEE})"}, "the spread fee (rounded up) goes from the trader to the spread-reward account", "/fee", false)
-	c.CheckedCall(US, "cltypes.BankKeeper.SendCoins[2=swapDetails.Sender][3=cltypes.ConcentratedPoolExtension.GetAddress(_)]", nil, "token-in (less fee) goes from the trader to the pool account", "/in")
-	c.CheckedCall(US, "cltypes.BankKeeper.SendCoins[2=cltypes.ConcentratedPoolExtension.GetAddress(_)]", []string{"k.bankKeeper", "ctx", "_", "swapDetails.Sender", "list(swapDetails.TokenOut)"}, "exactly token-out goes from the pool account to the trader", "/out")
-	c.CheckedCall(US, "cltypes.ConcentratedPoolExtension.ApplySwap", []string{"_", "poolUpdates.NewLiquidity", "poolUpdates.NewCurrentTick", "poolUpdates.NewSqrtPrice"}, "the pool state of the computed swap is applied", "")
+	clSwapSettleRules(c)
+	clUptimePositionRules(c)
 	// ---- reward growth and claims truncate
 	c.RoundRegion("x/concentrated-liquidity.SwapState.updateSpreadRewardGrowthGlobal", "", "DOWN", nil, 1, "spread-reward growth per unit of liquidity is truncated")
 	c.RoundRegion("x/concentrated-liquidity.calcAccruedIncentivesForAccum", "", "DOWN", nil, 1, "incentive emission per unit of liquidity is truncated")
